@@ -5,7 +5,7 @@ cd /verif
 BASE="29 failed, 180 passed, 1 skipped, 10 errors"
 for P in ${@:-$(ls -d /tmp/wt/nout-C?? | sed "s/.*nout-//")}; do
   d=/tmp/wt/nout-$P
-  for K in n1 n2 n3 n4; do
+  for K in n1 n2 n3 n4 n5 n6 n7 n8; do
     [ -f $d/patch_$K.diff ] && [ -f $d/meta_$K.json ] || continue
     DEST=/verif/neutral/$P-$K
     [ -d $DEST ] && continue
